@@ -72,7 +72,7 @@ func (j *Jid) Bare() string {
 // Helpers, for parsing / validation
 
 func isUsernameValid(username string) bool {
-	invalidRunes := []rune{'@', '/', '\'', '"', ':', '<', '>'}
+	invalidRunes := []rune{'@', '/', '\'', '"', ':', '<', '>', '&'}
 	return strings.IndexFunc(username, isInvalid(invalidRunes)) < 0
 }
 
